@@ -17,6 +17,7 @@ color_formatter = formatters.TerminalTrueColorFormatter(style='stata-dark')
 DBG_TRACE = 7
 DBG_FSYSTEM = 3
 DBG_BSD = 4
+DBG_PERF = 37
 
 
 class PyKdebugParser:
@@ -68,6 +69,10 @@ class PyKdebugParser:
         add_fs_class = has_filters and has_bsd and DBG_FSYSTEM not in self.filter_class
         if add_fs_class:
             helper_classes.append(DBG_FSYSTEM)
+        # Sampler thread data declares the process of a thread, like the trace class' new-thread records.
+        add_perf_class = has_filters and DBG_PERF not in self.filter_class
+        if add_perf_class:
+            helper_classes.append(DBG_PERF)
 
         traces_parser = TracesParser(trace_codes_map, self.threads_pids, self.pids_names)
         # Other threads' records declare the processes of the requested thread, so the thread filter is applied
@@ -83,6 +88,9 @@ class PyKdebugParser:
                                      self._is_eventid_allowed(t.ktraces[0].eventid), trace_generator)
         if add_fs_class:
             trace_generator = filter(lambda t: t.ktraces[0].eventid >> 24 != DBG_FSYSTEM or
+                                     self._is_eventid_allowed(t.ktraces[0].eventid), trace_generator)
+        if add_perf_class:
+            trace_generator = filter(lambda t: t.ktraces[0].eventid >> 24 != DBG_PERF or
                                      self._is_eventid_allowed(t.ktraces[0].eventid), trace_generator)
         return trace_generator
 
